@@ -6,6 +6,7 @@ require (
 	github.com/jcmturner/gofork v1.7.6
 	github.com/jcmturner/goidentity/v6 v6.0.1
 	github.com/jcmturner/gokrb5/v8 v8.0.0
+	github.com/jcmturner/rpc/v2 v2.0.3
 )
 
 replace github.com/jcmturner/gokrb5/v8 => /repo/v8
